@@ -28,7 +28,7 @@ func init() {
 			"(c) every sorted dictionary up to the size bound x every split into consecutive blocks -> real token.Table.SelectEntries(field, hint) -> ordered provider over the selected entries -> pattern.Search must equal the scan of all tokens; " +
 			"(d) seeded long strings and large dictionaries; (e) live: one real store per batch, one document per token of a seeded dictionary (every other batch large enough for several dictionary blocks), every pattern/range as a search on the field on the active and on the sealed fraction (block-loading provider) vs the DP matcher over the documents. case = one pattern/range (a,b) or one dictionary with all its splits and patterns (c); non-trivial = matches some but not all tokens; distinct = case identity",
 		Assumptions: []string{"the ordered provider used in (c) serves tokens straight from the dictionary; the block-loading provider of sealed fractions is exercised by part (e) and by C03 (multi-block dictionaries)"},
-		Batches:     tiered(16, 64),
+		Batches:     tiered(128, 1024),
 		Run:         runC13,
 		Exhaustive:  func(string) bool { return true },
 		Timeout:     timeoutFor(8*time.Minute, 45*time.Minute),
